@@ -16,7 +16,12 @@ namespace nmtools::index
         
         auto result = result_t {};
 
-        result = ((float)stop - (float)start) / (endpoint ? num - 1 : num);
+        // compute in the result precision (not float), and follow numpy for a single sample
+        // with endpoint (num-1 == 0): the only sample is start, the step is irrelevant
+        auto divisor = (endpoint ? num - 1 : num);
+        if (divisor > 0) {
+            result = ((result_t)stop - (result_t)start) / (result_t)divisor;
+        }
 
         return result;
     }
